@@ -2,6 +2,7 @@ package main
 
 import (
 	"fmt"
+	"sort"
 	"go/types"
 	"strings"
 
@@ -71,6 +72,64 @@ func init() {
 							}
 							fmt.Println()
 						}
+					}
+				}
+			}
+		}
+		return 0
+	}
+}
+
+func init() {
+	devHooks["flow"] = func(p *Prog, fnPat, untr string) int {
+		cg := BuildCallGraph(p)
+		e := newFlowEngine(p, cg)
+		n := 0
+		seenLine := map[string]bool{}
+		for _, fn := range p.Funcs {
+			pk := FuncPkg(fn)
+			if pk == nil || !strings.Contains(pk.Path(), fnPat) {
+				continue
+			}
+			for _, src := range e.findSources(fn) {
+				n++
+				f := e.Facts(src)
+				var direct, heap []string
+				for k, l := range f {
+					if strings.HasPrefix(k, "heap:") {
+						heap = append(heap, strings.TrimPrefix(k, "heap:"))
+					} else if strings.HasPrefix(k, "store:") {
+						direct = append(direct, "store:"+k[strings.LastIndex(k, "/")+1:]+":"+l.String())
+					} else {
+						direct = append(direct, k+":"+l.String())
+					}
+				}
+				sort.Strings(direct)
+				sort.Strings(heap)
+				line := fmt.Sprintf("%s | %s | %s | heap{%s}", strings.TrimPrefix(Abstract(FuncName(fn)), modPath+"/"), strings.Replace(src.Key(), modPath+"/", "", -1), strings.Join(direct, " "), strings.Join(heap, ","))
+				if !seenLine[line] {
+					seenLine[line] = true
+					fmt.Println(line)
+				}
+			}
+		}
+		fmt.Println("sources:", n)
+		return 0
+	}
+}
+
+func init() {
+	devHooks["calls"] = func(p *Prog, fnPat, untr string) int {
+		for _, fn := range p.FuncsMatching(fnPat) {
+			for _, b := range fn.Blocks {
+				for _, ins := range b.Instrs {
+					if c, ok := ins.(*ssa.Call); ok {
+						cal := c.Call.StaticCallee()
+						rn := ""
+						if cal != nil && cal.Signature.Recv() != nil {
+							rn = namedName(cal.Signature.Recv().Type())
+						}
+						fmt.Printf("%s static=%v recv=%q invoke=%v valuetype=%T\n", CalleeName(&c.Call), cal != nil, rn, c.Call.IsInvoke(), c.Call.Value)
 					}
 				}
 			}
